@@ -72,6 +72,9 @@ pub enum Op {
     /// a SampleRng in which the first user callback (scalar arithmetic, RNG draw or
     /// logger write) at or after event `at` unwinds: a panicking RNG / logger
     AbortedRng { seed: u64, kind: RngKind, ed: EdgeData, st: Settings, at: u64 },
+    /// a SampleX evaluated with the precision-carrying scalar `SimP` at `prec` bits
+    /// (calls of different precision on one thread: caches keyed by the scalar type)
+    SampleXP { point: Vec<u64>, ed: EdgeData, st: Settings, prec: u8 },
     /// `n` samples at `n` DIFFERENT pseudo-random points; every one is compared with
     /// a sampler without history (freshly restored from the image every 64 calls)
     Burst { seed: u64, n: u64, ed: EdgeData, st: Settings },
@@ -99,6 +102,7 @@ impl Op {
             Op::AbortedRng { .. } => "aborted_rng_sample",
             Op::ImageCheck => "image",
             Op::Burst { .. } => "burst",
+            Op::SampleXP { .. } => "sample_x_precision_carrying_scalar",
             Op::Repeat { .. } => "repeat",
             Op::Alt(o) => o.tag(),
         }
@@ -350,6 +354,7 @@ fn exec_on(envs: &[Arc<Env>], e: usize, cs: &mut ClientState, op: &Op, record_tr
             }
         }
         Op::ImageCheck => Outcome::Image(current(env, cs, e).image().digest()),
+        Op::SampleXP { point, ed, st, prec } => current(env, cs, e).sample_x_p(point, ed, st, *prec),
         Op::Burst { seed, n, ed, st } => {
             let s = current(env, cs, e);
             let dim = s.dimension();
@@ -950,10 +955,10 @@ pub fn run_scenario(sc: &Scenario, opts: &RunOpts) -> RunReport {
     for (ci, recs) in all.iter().enumerate() {
         for (oi, r) in recs.iter().enumerate() {
             let op = &sc.clients[ci].ops[oi];
-            if !matches!(op, Op::SampleX { .. } | Op::Getters | Op::SampleRng { .. } | Op::ImageCheck | Op::Alt(_)) {
+            if !matches!(op, Op::SampleX { .. } | Op::SampleXP { .. } | Op::Getters | Op::SampleRng { .. } | Op::ImageCheck | Op::Alt(_)) {
                 continue;
             }
-            if !matches!(op.strip().1, Op::SampleX { .. } | Op::Getters | Op::SampleRng { .. } | Op::ImageCheck)
+            if !matches!(op.strip().1, Op::SampleX { .. } | Op::SampleXP { .. } | Op::Getters | Op::SampleRng { .. } | Op::ImageCheck)
                 || matches!(op, Op::Alt(b) if matches!(**b, Op::Repeat { .. }))
             {
                 continue;
